@@ -36,7 +36,7 @@ func (c10) Describe() engine.Info {
 		Rule: "class history: MBC3 cartridge, 6..40 operations over {RAM/clock gate open/close (latches also while it is closed), latch 0, latch 1, select register 08-0C (and RAM banks), read, write (incl. seconds write and halt on/off), clock warp to k cycles before a second boundary with counters near 59/59/23/511} separated by 1..6 cycles, a fraction of a second, or 1-3 seconds. After every operation and after every elapsed span the selected register is read and compared; " +
 			"class step: the one-second step from sampled and boundary counter states through the accessor, compared with the reference step. Oracle: reference RTC (60/60/24/512 carries, sticky day carry, halt freezes counters and sub-second count, latch only on 0 then 1, masks 3F/3F/1F/FF/C1, writes set live counters, seconds write restarts the sub-second count). Signature = (operation, selected register, halted, latch state, carry level reached).",
 		Assumptions:    []string{"counter values outside 0-59/0-23 written by the guest are judged for masks only", "the clock warp is a fault injected through the verif accessor into both the emulator and the model"},
-		RequiredProbes: []string{"latch_with_gate_closed", "second_boundary_crossed", "minute_carry", "hour_carry", "day_carry", "day_overflow", "halted_span", "latch_without_low", "seconds_write", "step_cases"},
+		RequiredProbes: []string{"latch_with_gate_closed", "second_boundary_crossed", "minute_carry", "hour_carry", "day_carry", "day_overflow", "halted_span", "latch_without_low", "seconds_write", "step_cases", "dma_while_clock_runs"},
 		RealComponents: realComponents, StubComponents: stubComponents,
 		Sweeps: []string{"class step: per scenario 20000 counter states (every state with s>=58 or m>=58 or h>=22 or d>=510 is favoured) x one-second step"},
 	}
@@ -75,7 +75,17 @@ func (c10) Generate(r *engine.Rand, index int, tier string) *engine.Scenario {
 				at += uint64(r.Range(1, 50))
 			}
 		}
-		switch k := r.Intn(16); {
+		switch k := r.Intn(18); {
+		case k == 16:
+			// the other bus parties are busy meanwhile: an OAM DMA transfer (the clock is stepped by the
+			// same per-cycle call of the memory unit), often several in a row like a game's frame routine
+			for j, q := 0, r.Range(1, 6); j < q; j++ {
+				add(engine.Event{K: "bus_w", A: 0xff46, V: engine.Pick(r, []uint8{0x00, 0x40, 0x80, 0xa0, 0xc0, 0xdf, 0xf1}), S: "dma"})
+				at += uint64(r.Range(1, 400))
+			}
+		case k == 17:
+			x := engine.Pick(r, [][2]int{{0xff40, 0x91}, {0xff40, 0x00}, {0xff07, 0x05}, {0xff26, 0x80}, {0xff26, 0x00}, {0xff04, 0x00}})
+			add(engine.Event{K: "bus_w", A: uint16(x[0]), V: uint8(x[1]), S: "io"})
 		case k >= 14:
 			// the RAM/clock access gate: latching does not depend on it, reading does
 			v := uint8(0x0a)
@@ -200,6 +210,9 @@ func (c10) Execute(sc *engine.Scenario) *engine.Result {
 				}
 				if ev.S == "write" && ct.RamOn && ct.RamB == 0x08 {
 					res.Probe("seconds_write")
+				}
+				if ev.S == "dma" && !ct.RTC.Halt {
+					res.Probe("dma_while_clock_runs")
 				}
 				ct.Write(ev.A, ev.V)
 				m.Write(ev.A, ev.V)
